@@ -3,6 +3,7 @@ package main
 import (
 	"encoding/base64"
 	"fmt"
+	"strconv"
 	"strings"
 
 	"github.com/lrstanley/girc"
@@ -158,6 +159,9 @@ func init() {
 
 func runC09Protocol(c *Ctx) {
 	r := c.R
+	for _, pw := range []string{"S3cr3t!dropped", "hunter2 with spaces", "p\xe9ss"} {
+		c.run("sensitivedropped", map[string]string{"pass": pw})
+	}
 	for i := 0; i < 120*c.Scale; i++ {
 		in := map[string]string{"nick": "me", "check": "c09", "nosts": "1"}
 		// choose the password length so that the base64 response lands on / next to a multiple of 400
@@ -320,6 +324,44 @@ func runC03Helpers(c *Ctx) {
 
 func init() {
 	sessionChecks["c11"] = func(c *Ctx, in, hin map[string]string, sc SessCfg, steps []string, cmp *SessCmp) {
+		// "MaxEventLength is the server's advertised line length (512 by default) minus CRLF and the prefix estimate":
+		// after every 005, the line length in use (hook dump: maxline) is the advertised LINELEN - 2, or 510
+		if !sc.DisableTracking {
+			opts := map[string]string{}
+			wantLine := 510
+			di := 0
+			for _, st := range steps {
+				if st == "D" {
+					if di < len(cmp.ImplDump) {
+						for _, l := range cmp.ImplDump[di] {
+							if strings.HasPrefix(l, "maxline=") && l != fmt.Sprintf("maxline=%d", wantLine) {
+								c.R.Violation("c11.linelen", hin, l, fmt.Sprintf("maxline=%d", wantLine), "the line length in use is not the server's advertised line length minus CRLF")
+							}
+						}
+					}
+					di++
+					continue
+				}
+				if st[0] != 'R' {
+					continue
+				}
+				e := girc.ParseEvent(st[1:])
+				if e == nil || e.Command != "005" || len(e.Params) < 2 || !strings.HasSuffix(e.Last(), "this server") {
+					continue
+				}
+				for _, tok := range e.Params[1 : len(e.Params)-1] {
+					j := strings.IndexByte(tok, '=')
+					if j < 1 || j+1 == len(tok) {
+						opts[tok] = ""
+					} else {
+						opts[tok[:j]] = tok[j+1:]
+					}
+				}
+				if v, err := strconv.Atoi(opts["LINELEN"]); err == nil {
+					wantLine = v - 2
+				}
+			}
+		}
 		// MaxEventLength = advertised line length (512 default) - CRLF - (4 + nick + user + host estimates)
 		maxlen := 395
 		for _, d := range cmp.Res.Getters {
